@@ -34,7 +34,7 @@ use scylla::frame::response::result::TableSpec;
 use scylla::frame::types::{Consistency, SerialConsistency};
 use scylla::policies::load_balancing::{DefaultPolicy, LatencyAwarenessBuilder, LoadBalancingPolicy, Plan, RoutingInfo};
 use scylla::routing::{NodeLocationPreference, Token};
-use scylla::verif_hooks::cluster::{KeyspaceSpec, NodeSpec, cluster_from_topology_with_tablets, set_sharders};
+use scylla::verif_hooks::cluster::{KeyspaceSpec, NodeSpec, cluster_from_topology_with_tablets, node_has_pool, set_sharders};
 use std::cell::RefCell;
 use std::collections::HashMap;
 use std::rc::Rc;
@@ -175,6 +175,8 @@ fn parse_request(s: &str) -> Option<Request> {
 
 thread_local! {
     static CACHE: RefCell<HashMap<String, Rc<ClusterState>>> = RefCell::new(HashMap::new());
+    /// States of refresh histories, with the pool-presence oracle messages found while building them.
+    static HCACHE: RefCell<HashMap<String, (Rc<ClusterState>, Vec<String>)>> = RefCell::new(HashMap::new());
 }
 
 thread_local! {
@@ -360,7 +362,28 @@ pub fn run(case: &str, ctx: &mut Ctx) -> String {
     // lplan: as plan, with latency awareness ON (an observation outside the property's quantifier): flag `p` = the node
     // is reported slow (100 ms, the others 1 ms), so it is penalised as soon as some node is not
     let is_lplan = !w.is_empty() && (w[0] == "lplan" || w[0].starts_with("lplan."));
-    let is_plan = is_plan || is_lplan;
+    // xplan: `xplan <topology> <keyspaces> <config> <request> <flip> <samples>` - as plan, but the connected-override of the
+    // nodes `flip` (host ids, comma separated) is inverted between the first and the second `Plan::next()`: `pick()` runs
+    // on one liveness snapshot, the lazily called `fallback()` on another (model: `PlanRefresh.plan2`)
+    let is_xplan = !w.is_empty() && (w[0] == "xplan" || w[0].starts_with("xplan."));
+    let mut flip: Vec<u64> = Vec::new();
+    let w: Vec<&str> = if is_xplan {
+        if w.len() != 7 {
+            return "bad-case".into();
+        }
+        if w[5] != "-" {
+            for e in w[5].split(',') {
+                let Ok(i) = e.parse::<u64>() else { return "bad-case".into() };
+                flip.push(i);
+            }
+        }
+        vec!["plan", w[1], w[2], w[3], w[4], w[6]]
+    } else {
+        w
+    };
+    let is_plan = is_plan || is_lplan || is_xplan;
+    // kinds whose plan may name its FIRST node again (counted, not judged) and whose order is not judged
+    let relaxed = is_lplan || is_xplan;
     // hplan: `hplan <n> (<mode> <topology>)xn <keyspaces> <config> <request> <samples>` - the cluster state is obtained by
     // a HISTORY of metadata refreshes (mode `n` = ClusterState::new, `r` / `t` = full / topology-only refresh with a
     // rejecting host filter, `R` / `T` = the same with an accepting one: the reuse / inherit arms of
@@ -372,7 +395,7 @@ pub fn run(case: &str, ctx: &mut Ctx) -> String {
             return "bad-case".into();
         }
         let steps: Vec<(&str, &str)> = (0..n).map(|i| (w[2 + 2 * i], w[3 + 2 * i])).collect();
-        if steps[0].0 != "n" || steps[1..].iter().any(|(m, _)| !["r", "t", "R", "T", "F", "G"].contains(m)) {
+        if !["n", "N"].contains(&steps[0].0) || steps[1..].iter().any(|(m, _)| !["r", "t", "R", "T", "F", "G"].contains(m)) {
             return "bad-case".into();
         }
         let last = steps[n - 1].1;
@@ -394,7 +417,7 @@ pub fn run(case: &str, ctx: &mut Ctx) -> String {
     ) else {
         return "bad-case".into();
     };
-    if samples == 0 {
+    if samples == 0 || flip.iter().any(|i| !peers.iter().any(|p| p.id == *i)) {
         return "bad-case".into();
     }
     // tplan: the table (k0, t) is tablet based; `-` = no tablet yet, else tablets `first:last:id@shard,..` separated by
@@ -467,37 +490,66 @@ pub fn run(case: &str, ctx: &mut Ctx) -> String {
             // a filtered refresh (`F` full, `G` topology only): one host-filter verdict per peer, flag `a` = accepted;
             // the rejected peers carry `d`, so that the override imposed afterwards agrees with the real `pool.is_some()`
             for (i, (m, _)) in steps.iter().enumerate() {
-                if (*m == "F" || *m == "G") && parsed[i].iter().any(|x| x.flags.contains('a') == x.flags.contains('d')) {
+                if ["N", "F", "G"].contains(m) && parsed[i].iter().any(|x| x.flags.contains('a') == x.flags.contains('d')) {
                     return "bad-case".into();
                 }
             }
             let key = format!("H {}", w0[1..w0.len() - 3].join(" "));
-            CACHE.with(|c| {
+            // a history of filtered steps only (`N`, then `F` / `G`): no override ever disagrees with a real pool, so after
+            // EVERY step the real `pool.is_some()` of every peer (hook `node_has_pool`) must be the host filter's verdict
+            let all_filtered = steps.iter().all(|(m, _)| ["N", "F", "G"].contains(m));
+            let (cs, pool_msgs) = HCACHE.with(|c| {
                 let mut c = c.borrow_mut();
-                if let Some(cs) = c.get(&key) {
-                    return cs.clone();
+                if let Some(e) = c.get(&key) {
+                    return e.clone();
                 }
                 if c.len() >= 16 {
                     c.clear();
                 }
-                let mut state = build_cluster(&parsed[0], &kss);
+                let fetched: Vec<Option<Strat>> = kss.iter().cloned().map(Some).collect();
+                let mut msgs: Vec<String> = Vec::new();
+                let mut check_pools = |state: &ClusterState, i: usize| {
+                    if all_filtered {
+                        for p in &parsed[i] {
+                            let real = node_has_pool(state, host_id(p.id));
+                            if real != Some(p.flags.contains('a')) {
+                                msgs.push(format!(
+                                    "after step {} ({}): node {} has_pool={:?} but the host filter's verdict was {}",
+                                    i + 1,
+                                    steps[i].0,
+                                    p.id,
+                                    real,
+                                    if p.flags.contains('a') { "accept" } else { "reject" }
+                                ));
+                            }
+                        }
+                    }
+                };
+                let mut state = if steps[0].0 == "N" {
+                    build_state_filtered(None, &parsed[0], &fetched)
+                } else {
+                    build_cluster(&parsed[0], &kss)
+                };
+                check_pools(&state, 0);
                 for i in 1..steps.len() {
                     state = match steps[i].0 {
                         "r" => refresh_cluster(&state, &parsed[i], &kss),
                         "t" => refresh_cluster_topology(&state, &parsed[i]),
                         "R" => refresh_cluster_accepting(&state, &parsed[i - 1], &parsed[i], &kss),
-                        "F" => {
-                            let fetched: Vec<Option<Strat>> = kss.iter().cloned().map(Some).collect();
-                            build_state_filtered(Some((&state, &parsed[i - 1])), &parsed[i], &fetched)
-                        }
+                        "F" => build_state_filtered(Some((&state, &parsed[i - 1])), &parsed[i], &fetched),
                         "G" => refresh_topology_filtered(&state, &parsed[i - 1], &parsed[i]),
                         _ => refresh_cluster_topology_accepting(&state, &parsed[i - 1], &parsed[i]),
                     };
+                    check_pools(&state, i);
                 }
-                let cs = Rc::new(state);
-                c.insert(key, cs.clone());
-                cs
-            })
+                let e = (Rc::new(state), msgs);
+                c.insert(key, e.clone());
+                e
+            });
+            for m in pool_msgs {
+                ctx.fail(m);
+            }
+            cs
         }
     };
 
@@ -642,16 +694,45 @@ pub fn run(case: &str, ctx: &mut Ctx) -> String {
     let mut fixed_fb: Option<Vec<Obs>> = None;
     let mut la_dups = 0usize;
     for k in 0..samples {
+        // xplan: invert / restore the connected-override of the `flip` nodes (the overrides are atomics of the node objects)
+        let set_flipped = |on: bool| {
+            for n in cs.get_nodes_info() {
+                let id = node_id(n.host_id);
+                if flip.contains(&id) {
+                    if let Some(p) = peers.iter().find(|p| p.id == id) {
+                        let connected = !p.flags.contains('x');
+                        n.verif_override_state(!p.flags.contains('d'), if on { !connected } else { connected });
+                    }
+                }
+            }
+        };
         let picked: Option<Obs> = policy.pick(&ri, &cs).map(|(n, s)| (node_id(n.host_id), s));
+        set_flipped(true);
         let fb: Vec<Obs> = policy.fallback(&ri, &cs).map(|(n, s)| (node_id(n.host_id), s)).collect();
-        let plan: Vec<(u64, u32)> = Plan::new(&*policy, &ri, &cs).map(|(n, shard)| (node_id(n.host_id), shard)).collect();
+        set_flipped(false);
+        let plan: Vec<(u64, u32)> = {
+            // first `next()` (= pick) on the first snapshot, everything after it (fallback is computed at the second
+            // `next()`) on the second
+            let mut it = Plan::new(&*policy, &ri, &cs);
+            let mut v: Vec<(u64, u32)> = Vec::new();
+            if let Some((n, shard)) = it.next() {
+                v.push((node_id(n.host_id), shard));
+                // (when `pick()` answers nothing - which does not depend on the random choices - `Plan` has already
+                // created the LAZY fallback iterator inside this first `next()`; a flip would then be seen element by
+                // element, which `plan2` does not model: no flip in that case)
+                set_flipped(picked.is_some());
+                v.extend(it.map(|(n, shard)| (node_id(n.host_id), shard)));
+                set_flipped(false);
+            }
+            v
+        };
         let plan_ids: Vec<u64> = plan.iter().map(|x| x.0).collect();
 
         // ---- oracle on the plan
         for (i, (id, shard)) in plan.iter().enumerate() {
             // (latency awareness: the FIRST node may be named again - counted, not judged; nothing else may repeat)
-            let before: &[(u64, u32)] = if is_lplan && i > 0 { &plan[1..i] } else { &plan[..i] };
-            if !is_lplan && before.contains(&(*id, *shard)) {
+            let before: &[(u64, u32)] = if relaxed && i > 0 { &plan[1..i] } else { &plan[..i] };
+            if !relaxed && before.contains(&(*id, *shard)) {
                 ctx.fail(format!("sample {}: target {}@{} twice in the plan {}", k, id, shard, nat_list(&plan_ids)));
             }
             if before.iter().filter(|j| j.0 == *id).count() >= multiplicity(*id) {
@@ -676,7 +757,7 @@ pub fn run(case: &str, ctx: &mut Ctx) -> String {
             if class(*id) > 2 && *shard >= nr_shards(*id) {
                 ctx.fail(format!("sample {}: shard {} of node {} is not below its shard count {}", k, shard, id, nr_shards(*id)));
             }
-            if class(*id) <= 2 && !shards_of(*id).contains(shard) && !(is_lplan && i == 0) {
+            if class(*id) <= 2 && !shards_of(*id).contains(shard) && !(relaxed && (i == 0 || flip.contains(id))) {
                 ctx.fail(format!(
                     "sample {}: replica {} is planned on shard {}, the token's / tablet's shard there is {:?}",
                     k,
@@ -691,10 +772,19 @@ pub fn run(case: &str, ctx: &mut Ctx) -> String {
                 ctx.fail(format!("sample {}: enabled token-owning node {} missing from the plan {}", k, id, nat_list(&plan_ids)));
             }
         }
-        if is_lplan && plan_ids.len() > 1 && plan_ids[1..].contains(&plan_ids[0]) {
+        if relaxed && plan_ids.len() > 1 && plan_ids[1..].contains(&plan_ids[0]) {
             la_dups += 1;
+            // two snapshots: only a picked node whose own liveness was flipped can come back (plan2_nodup_of_stable_pick)
+            if is_xplan && !flip.contains(&plan_ids[0]) {
+                ctx.fail(format!(
+                    "sample {}: node {} twice in the plan {} although its own liveness did not change",
+                    k,
+                    plan_ids[0],
+                    nat_list(&plan_ids)
+                ));
+            }
         }
-        if !is_lplan && plan_ids.iter().all(|id| by_id.contains_key(id)) {
+        if !relaxed && plan_ids.iter().all(|id| by_id.contains_key(id)) {
             for i in 1..plan_ids.len() {
                 if class(plan_ids[i - 1]) > class(plan_ids[i]) {
                     ctx.fail(format!(
@@ -756,7 +846,7 @@ pub fn run(case: &str, ctx: &mut Ctx) -> String {
                 }
             }
         }
-        if !cfg.shuffle && !is_lplan {
+        if !cfg.shuffle && !relaxed {
             let fixed_p = picked.filter(|p| p.1.is_some());
             let fixed_f: Vec<Obs> = fb.iter().filter(|o| o.1.is_some()).cloned().collect();
             match (&fixed_pick, &fixed_fb) {
@@ -780,7 +870,7 @@ pub fn run(case: &str, ctx: &mut Ctx) -> String {
         if first_set.is_none() {
             let mut s = plan_ids.clone();
             s.sort_unstable();
-            if is_lplan {
+            if relaxed {
                 s.dedup();
             }
             first_set = Some(s);
@@ -853,7 +943,7 @@ pub fn run(case: &str, ctx: &mut Ctx) -> String {
         obs_list(&first_rep.unwrap_or_default()),
         if lwt { obs_list(&first_lwt.unwrap_or_default()) } else { "x".into() },
         det,
-        if is_lplan { format!(" dups={}", la_dups) } else { String::new() }
+        if relaxed { format!(" dups={}", la_dups) } else { String::new() }
     );
     for s in out_samples {
         line.push(' ');
@@ -1049,6 +1139,11 @@ fn tagged(line: String) -> String {
         let t = tagged(format!("plan - - {} {} {}", w[k - 3], w[k - 2], w[k - 1]));
         let tag = t.split(' ').next().unwrap_or("plan").trim_start_matches("plan").to_owned();
         return format!("hplan{} {}", tag, w[1..].join(" "));
+    }
+    if w.len() == 7 && w[0] == "xplan" {
+        let t = tagged(format!("plan {} {} {} {} {}", w[1], w[2], w[3], w[4], w[6]));
+        let tag = t.split(' ').next().unwrap_or("plan").trim_start_matches("plan").to_owned();
+        return format!("xplan{} {}", tag, w[1..].join(" "));
     }
     if !((w.len() == 6 && (w[0] == "plan" || w[0] == "lplan")) || (w.len() == 7 && w[0] == "tplan")) {
         return line;
@@ -1324,10 +1419,20 @@ pub fn generate(rng: &mut Rng, tier: Tier, emit0: &mut dyn FnMut(String)) {
                 _ => String::new(),
             }
         };
+        // half of the histories consist of filtered steps only (`N`, then `F` / `G`): there the harness also asserts the
+        // REAL pool presence of every node after every step
+        let all_filtered = rng.chance(1, 2);
+        let verdict_flags = |rng: &mut Rng| -> String {
+            match rng.below(10) {
+                0..=2 => "d".into(),
+                3 => "ax".into(),
+                _ => "a".into(),
+            }
+        };
         for p in peers.iter_mut() {
-            p.flags = flag(rng);
+            p.flags = if all_filtered { verdict_flags(rng) } else { flag(rng) };
         }
-        let mut steps: Vec<String> = vec![format!("n {}", fmt_topology(&peers))];
+        let mut steps: Vec<String> = vec![format!("{} {}", if all_filtered { "N" } else { "n" }, fmt_topology(&peers))];
         let next_id = peers.iter().map(|p| p.id).max().unwrap_or(0) + 1;
         for step in 0..rng.range(1, 3) {
             // mutate the metadata
@@ -1357,7 +1462,7 @@ pub fn generate(rng: &mut Rng, tier: Tier, emit0: &mut dyn FnMut(String)) {
                 2 | 3 => rng.shuffle(&mut peers),
                 _ => {}
             }
-            let mode = *rng.pick(&["R", "T", "r", "t", "F", "F", "G", "G"]);
+            let mode = if all_filtered { *rng.pick(&["F", "G"]) } else { *rng.pick(&["R", "T", "r", "t", "F", "F", "G", "G"]) };
             if mode == "F" || mode == "G" {
                 // one host-filter verdict per peer: accepted (`a`, possibly down) or rejected (`d`)
                 let mut with_verdicts = peers.clone();
@@ -1401,6 +1506,41 @@ pub fn generate(rng: &mut Rng, tier: Tier, emit0: &mut dyn FnMut(String)) {
                 if rng.chance(1, 3) { 1 } else { 0 },
                 *rng.pick(&["one", "lq", "quorum", "serial"]),
                 gen_pref(rng, &peers, false).fmt(),
+                samples
+            ));
+        }
+    }
+
+    // 3e. two liveness snapshots: the connected-override of one or two nodes is inverted between the first and the second
+    // `Plan::next()` - mostly of nodes that are likely to be picked (live replicas), also of down nodes coming back
+    for _ in 0..if quick { 350 } else { 6000 } {
+        let mut peers = gen_topology(rng, rich);
+        if peers.len() < 3 {
+            continue;
+        }
+        let n = peers.iter().filter(|p| !p.tokens.is_empty()).count();
+        let kss: Vec<Strat> = vec![Strat::Simple(rng.range(1, n.max(1) as i64) as usize), gen_strategy(rng, &peers)];
+        for p in peers.iter_mut() {
+            p.flags = match rng.below(10) {
+                0 | 1 => "x".into(),
+                2 => "d".into(),
+                _ => String::new(),
+            };
+        }
+        add_sharders(rng, &mut peers);
+        let topo = fmt_topology(&peers);
+        for _ in 0..5 {
+            let k = rng.range(0, 2) as usize;
+            let mut idx: Vec<usize> = (0..peers.len()).collect();
+            rng.shuffle(&mut idx);
+            let fl: Vec<String> = idx.into_iter().take(k).map(|i| peers[i].id.to_string()).collect();
+            emit(format!(
+                "xplan {} {} {} {} {} {}",
+                topo,
+                fmt_strategies(&kss),
+                gen_config(rng, &peers),
+                gen_request(rng, &peers, 2),
+                if fl.is_empty() { "-".to_owned() } else { fl.join(",") },
                 samples
             ));
         }
@@ -1462,6 +1602,9 @@ pub fn generate(rng: &mut Rng, tier: Tier, emit0: &mut dyn FnMut(String)) {
         "hplan 2 n 1:0:0:5 F 1:0:1:5 S1 a/t/f/s 5/0/0/one/-/a 3",
         "hplan 2 n 1:0:0:5 G 1:0:1:5:ad S1 a/t/f/s 5/0/0/one/-/a 3",
         "lplan 1:0:0:5 S1 a/t/f/s 5/0/0/one/-/a 0",
+        "xplan 1:0:0:5 S1 a/t/f/s 5/0/0/one/-/a 9 3",
+        "xplan 1:0:0:5 S1 a/t/f/s 5/0/0/one/-/a 1,x 3",
+        "hplan 2 N 1:0:0:5 F 1:0:1:5:a S1 a/t/f/s 5/0/0/one/-/a 3",
         "hplan 2 r 1:0:0:5 R 1:0:1:5 S1 a/t/f/s 5/0/0/one/-/a 3",
         "hplan 2 n 1:0:0:5 n 1:0:1:5 S1 a/t/f/s 5/0/0/one/-/a 3",
         "hplan 2 n 1:0:0:5:s4.12 R 1:0:1:5 S1 a/t/f/s 5/0/0/one/-/a 3",
